@@ -305,6 +305,21 @@ def impl_init():
 
     def impl(c):
         db = U.load_db("\n".join(c["lines"]) + "\n")
+        if (len(c["lines"]) + len(c["lines"][-1]) + c["md"]) % 3 == 0:
+            # the same Database object has served impersonations BY LABEL before (they read its records): what the records say is unchanged by that
+            from scapy.layers.inet import IP as SIP, TCP as STCP
+            from pyp0f.impersonate import impersonate_tcp
+            labs = []
+            for l in c["lines"]:
+                if l.startswith("label = ") and l[8:] not in labs:
+                    labs.append(l[8:])
+            for lab in labs[:4]:
+                for fl in ("S", "SA"):
+                    try:
+                        impersonate_tcp(SIP(src="10.9.9.1", dst="10.9.9.2") / STCP(flags=fl, seq=7, ack=1 if fl == "SA" else 0, options=[("MSS", 1460)]),
+                                        raw_label=lab, database=db, extra_hops=1)
+                    except Exception:
+                        pass
         if (len(c["lines"]) + c["md"] + c["syn_mss"]) % 4 == 0:
             # one long-lived Scapy object, fingerprinted before while it had another TTL, then updated in place
             pkt = U.scapy_reused(c["spec"], lambda o: fingerprint_tcp(o, options=Options(database=db)))
